@@ -47,11 +47,11 @@ def gen_text(r, after_ref):
 
 
 def gen_ref(r):
-    k = r.choice(["var", "var", "vark", "stacki", "stacklen", "hname", "hname", "hidx", "hquoted", "meta", "cp"])
+    k = r.choice(["var", "var", "vark", "vark", "stacki", "stacklen", "hname", "hname", "hidx", "hquoted", "meta", "cp"])
     if k == "var":
         return ["ref", "variables", r.choice(["x", "n"]), None]
     if k == "vark":
-        return ["ref", "variables", "t", "k"]
+        return r.choice([["ref", "variables", "t", "k"], ["ref", "variables", "z", "k"], ["ref", "variables", "z", "b"], ["ref", "variables", "z", "e"]])
     if k == "stacki":
         return ["ref", "variables", "st", str(r.choice([0, 1]))]
     if k == "stacklen":
@@ -217,7 +217,7 @@ def make_case(seed, shard, i):
     qual = r.choice(["", "", "onmatch", "once", "onmatch.once"])
     rows = [HEADERS]
     for k in range(r.randint(2, 5)):
-        rows.append([r.choice(["A1", "7", " p q", "x,y", "5.5"]), r.choice(["B1", "0", "b b"]), r.choice(["C", "c-c", "#z"]), r.choice(["D!", "dd", "9"])])
+        rows.append([r.choice(["A1", "7", " p q", "x,y", "5.5"]), r.choice(["B1", "0", "b b", ""]), r.choice(["C", "c-c", "#z"]), r.choice(["D!", "dd", "9"])])
     gate = r.choice(["", "", '#b == "B1"', 'not(#b == "B1")'])
     return {"chunks": chunks, "arr": arr, "qual": qual, "rows": rows, "gate": gate}
 
@@ -230,7 +230,7 @@ def run_case(case, agg):
     with open("pr.csv", "w", newline="") as f:
         f.write(lang.rows_to_text(rows))
     pq = "print" + ("." + qual if qual else "")
-    prog = f'~ owner: team-a note: v1 id: pr1 ~ $pr.csv[1*][@x = #a @n = count_lines() @t.k = #d push("st", #b) push("st", #a) {pq}("{tmpl}") {gate}]'
+    prog = f'~ owner: team-a note: v1 id: pr1 ~ $pr.csv[1*][@x = #a @n = count_lines() @t.k = #d @z.k = mod(count_lines(), 2) @z.b = equals(#a, "A1") @z.e = #b push("st", #b) push("st", #a) {pq}("{tmpl}") {gate}]'
     c, cap = env.new_csvpath(["collect", "print"])
     cap2 = env.CapturePrinter()
     c.add_printer(cap2)
